@@ -337,7 +337,7 @@ def _replay_mixed(cex):
     bad = []
     for kind in ("concat", "concat_with", "append"):
         for featured_first in (True, False):
-            for n_other in (2, 0):
+            for n_other in (2, 1, 0):
                 a = Molecules(np.arange(9.0).reshape(3, 3), features={"v": [10, 11, 12]} if featured_first else None)
                 b = Molecules(np.arange(3.0 * n_other).reshape(n_other, 3) + 100, features=None if featured_first else {"v": list(range(20, 20 + n_other))})
                 try:
@@ -373,7 +373,7 @@ def sec_mixed(rec, patches=None):
     with L.installed():
         for kind in ("concat", "concat_with", "append"):
             for featured_first in (True, False):
-                for n_other in (2, 0):
+                for n_other in (2, 1, 0):
                     tag = f"mixed/{kind}[{'featured' if featured_first else 'plain'} (3) + {'plain' if featured_first else 'featured'} ({n_other})]"
 
                     def run():
